@@ -434,6 +434,22 @@ func runC19(t *testing.T, p *core.Plan) *core.Result {
 			}
 			log.Ev("peer gone")
 		}
+		if !closed && !isDone(rdone) {
+			// a Send that returned an error has closed the carrier: the pending
+			// Receive must have come back by itself, nobody needs to call Close
+			failed := false
+			for s := 1; s <= nS; s++ {
+				for _, r := range recs[s] {
+					if r.err != nil {
+						failed = true
+					}
+				}
+			}
+			if failed {
+				res.Count("probe_receive_after_send_error", 1)
+				res.Violate("C19", "C19.blocked", "receive-after-send-error", "a Send returned an error, but the pending Receive is still blocked (the carrier was not closed)")
+			}
+		}
 		if !closed && isDone(rdone) {
 			// the connection already failed on the receive side (error, EOF or
 			// expired read timeout): a flushed send must fail at once
